@@ -32,7 +32,7 @@ def pyval(v):
     if isinstance(v, str):
         return f'(1 {s(v)})'
     if isinstance(v, bytes):
-        return f'(2 {s(v.decode("utf8"))})'
+        return f'(2 {s(v.decode("utf8", "replace"))})'
     if isinstance(v, Sequence):
         return f'(3 ({" ".join(pyval(x) for x in v)}) {s(str(v))})'
     return f'(4 {s(str(v))})'
